@@ -337,3 +337,16 @@ def run(ctx):
              "trans-ids a, d, d/c, new n (names x, a; any trans-id or the root as parent); non-trivial = has raw "
              "conflicts or >= 2 calls" % maxops)
     ctx.assume("the resolvers' choices are not specified; builder calls respect the API preconditions")
+
+
+def replay(ctx, rep):
+    """./check C14 --replay FILE: re-run one recorded transform on the real code and print what is observed."""
+    import json
+    env.init()
+    r = rep["replay"]
+    fl = r["flavour"]
+    BASES[fl] = tc.make_base(ctx.workdir, fl, TREE)
+    got = run_one({"ops": r["calls"]}, fl, os.path.join(ctx.workdir, "wt"))
+    print(json.dumps({"signature": rep["signature"], "observed_now": got}, indent=1))
+    ctx.count(1, traces=1)
+    ctx.sample({"replayed": rep["signature"]})
